@@ -230,7 +230,9 @@ def rule_sent(R):
             R.ob("sent/kind/%s#%d" % (kind, m), arms == [kind] and okw,
                  "a FlushedPacket::%s record must be built in the OutboundStep::%s arm from that step's own identifier "
                  "(found in arm %s from %s)" % (kind, kind, arms, show(src) if src else "?"), where=s["span"])
-    R.floor("sent/kind", m, 6, "FlushedPacket constructions")
+    built_kinds = set(s["rv"]["agg"]["variant"] for bb, j, s in pcode.assigns()
+                      if bb in pcode.reachable and "agg" in s["rv"] and (s["rv"]["agg"].get("adt") or "").endswith("FlushedPacket"))
+    R.floor("sent/kind", len(built_kinds & set(KIND_QUEUE)), 3, "FlushedPacket kinds built in perform_outbound_step")
 
 
 def clause_order(R, prefix, queues, why):
